@@ -220,7 +220,7 @@ func runScenarioGo(tok *biscuit.Biscuit, sc azScenario, entry azEntry) (obs []az
 			case "reset":
 				a.Reset()
 			case "load":
-				if err := a.LoadPolicies(op.LoadBytes); err != nil {
+				if err := loadPoliciesOwned(a, op.LoadBytes); err != nil {
 					o.Panic = "LoadPolicies rejects a snapshot produced by SerializePolicies: " + err.Error()
 				}
 			case "authorize":
